@@ -45,7 +45,8 @@ pub fn cleanup_scratch() {
 /// Per-node context: data directory, logical clock, snapshot key order.
 pub struct NodeCtx {
     pub dir: PathBuf,
-    pub clock: AtomicU64,
+    /// logical clock; shared between the nodes of a cluster when synchronised wall clocks are modelled
+    pub clock: Arc<AtomicU64>,
     /// permutation index applied to the (sorted) dirty key list of the next snapshots
     pub key_order: Mutex<Option<Vec<usize>>>,
     pub last_dirty: Mutex<Vec<String>>,
@@ -119,10 +120,13 @@ impl LinkHandle {
 
 impl NodeCtx {
     pub fn new(dir: PathBuf, clock_start: u64) -> Arc<NodeCtx> {
+        NodeCtx::with_clock(dir, Arc::new(AtomicU64::new(clock_start)))
+    }
+    pub fn with_clock(dir: PathBuf, clock: Arc<AtomicU64>) -> Arc<NodeCtx> {
         std::fs::create_dir_all(&dir).unwrap();
         Arc::new(NodeCtx {
             dir,
-            clock: AtomicU64::new(clock_start),
+            clock,
             key_order: Mutex::new(None),
             last_dirty: Mutex::new(vec![]),
             user_perm: Mutex::new(None),
